@@ -57,11 +57,10 @@ def replay(path):
     cfg = r["cfg"]
     if cfg["kind"] == "walk":
         t = arch.walk(r["desc"], cfg["step"] + 1, cfg["seed"], cfg["mode"])
-        for i, ev in enumerate(t["ev"]):
-            print(f"  step {i}: {ev['m']}() cloned={ev['cloned']} -> applied={ev['applied']} {ev['pre']} -> {ev['post']} ob={ev['ob']} raised={ev['raised']!r} {ev.get('detail')}")
     else:
-        print("  recorded history (edge replay; re-run ./check to regenerate):")
-        for i, h in enumerate(r["history"]):
-            print(f"  step {i}: {h}")
-        print(f"  failing event: {r['event']}")
+        t = arch.replay(cfg["c"], [h["edge"] for h in r["history"]], cfg["seed"], cfg["inst"], cfg["mode"])
+    for i, ev in enumerate(t["ev"]):
+        want = f" (TLC edge: applied={ev['want']['applied']} -> {ev['want']['to']})" if "want" in ev else ""
+        print(f"  step {i}: {ev['m']}() cloned={ev['cloned']} -> applied={ev['applied']} {ev['pre']} -> {ev['post']}{want} ob={ev['ob']} "
+              f"raised={ev['raised']!r} {ev.get('detail')}")
     return 1
